@@ -41,6 +41,21 @@ func vh06Corpus() []vhloopScn {
 			l = append(l, vhloopBatch(vhloopName("batch%d-perm%d", n, pi), n, p, false, pi%2 == 0))
 		}
 	}
+	// bursts: many requests sent back to back, answered concurrently (large replies, flushes in between),
+	// over the plain pipe and over the fragmenting writer: torn frames show up here
+	for _, n := range []int{8, 32} {
+		for _, frag := range []bool{false, true} {
+			var fs []vhloopFrame
+			for i := 0; i < n; i++ {
+				fs = append(fs, vhloopRead(30000+i, -1))
+				if i%4 == 3 {
+					fs = append(fs, vhloopFlush(31000+i, 30000+i-1))
+				}
+			}
+			l = append(l, vhloopScn{Name: vhloopName("burst%d-frag%v", n, frag), Frag: frag, NFid: 1,
+				Steps: []vhloopStep{vhloopSend(vhloopRead(1, 1)), vhloopSend(fs...), vhloopSend(fs...), vhloopRel(1, 0)}})
+		}
+	}
 	return l
 }
 
